@@ -254,6 +254,9 @@ PROPS["C08"]["tasks"] = PROPS["C08"]["tasks"] + [t for t in ("OrderBook.add", "O
 PROPS["C03"]["tasks"] = PROPS["C03"]["tasks"] + ["TradingHaltRule.hooked_before_step_for_market", "TradingHaltRule.hooked_after_execution"]
 # round 9: a notification goes to the agent whose id the order carries, so "the right party" rests on the owner check of the collection phase (C11)
 PROPS["C11"]["tasks"] = PROPS["C11"]["tasks"] + ["SequentialRunner._collect_orders_from_normal_agents[Order]", "SequentialRunner._collect_orders_from_normal_agents[Cancel]"]
+# round 9: the parameters of the built-in events come from their expanded settings (C14-C16 depend on json_extends and on where the runner calls it)
+for _p in ("C14", "C15", "C16"):
+    PROPS[_p]["tasks"] = PROPS[_p]["tasks"] + [t for t in ("json_extends", "census:json_extends-call-sites") if t not in PROPS[_p]["tasks"]]
 from .census import CALLERS as _CALLERS
 for _g, (_ps, _r, _t) in _CALLERS.items():
     for _p in _ps:
